@@ -155,6 +155,8 @@ func init() {
 		}
 		return args[1]
 	})
+	reg(s("SameText"), func(in *Interp, fr *frame, args []value) value { return in.sameText(args[0], args[1]) })
+	reg(s("TextSkeleton"), func(in *Interp, fr *frame, args []value) value { return in.textSkeleton(args[0]) })
 	reg(s("KeyIndex"), func(in *Interp, fr *frame, args []value) value {
 		fail := tuple{"", mkInt(64, false, 0), false}
 		switch k := args[0].(type) {
@@ -603,6 +605,19 @@ func registerStd(reg func(string, externalFn)) {
 	})
 	reg("strings.Join", func(in *Interp, fr *frame, args []value) value {
 		elems := args[0].([]value)
+		if sepc, ok := args[1].(string); ok && !strings.Contains(sepc, "%") {
+			lazy := false
+			for _, e := range elems {
+				if s, ok := e.(*sstr); ok && s.b == nil && s.lazy != nil {
+					lazy = true
+				}
+			}
+			if lazy {
+				f := strings.Repeat("%s"+sepc, len(elems))
+				f = f[:len(f)-len(sepc)]
+				return &sstr{lazy: &lazyFmt{format: f, args: append([]value(nil), elems...)}}
+			}
+		}
 		sep := in.sbytes(args[1])
 		var out []ival
 		for i, e := range elems {
